@@ -264,8 +264,9 @@ def _valid(obj, snap):
 
 def _fuzz(target, seed, steps, lsb0):
     r = _random.Random(seed)
+    nc0 = _random.Random(seed ^ 0x5eed).random() < 0.5          # own generator: the main random stream is unchanged
     opts0 = (lsb0, r.choice([False, True]), r.choice(["saturate", "overflow"]))
-    with options(lsb0=opts0[0], bytealigned=opts0[1], mxfp_overflow=opts0[2]):
+    with options(lsb0=opts0[0], bytealigned=opts0[1], mxfp_overflow=opts0[2], no_color=nc0):
         n0 = r.choice([0, 1, 7, 8, 13, 16, 24, 33])
         init = "".join(r.choice("01") for _ in range(n0))
         forced = None
@@ -416,7 +417,7 @@ def _fuzz(target, seed, steps, lsb0):
             if bad:
                 return "err internal", {"offending": desc, "why": "invalid object: " + bad, "history": log[-6:], "target": target, "opts": opts0}
             o = bitstring.options
-            if (o.lsb0, o.bytealigned, o.mxfp_overflow) != opts0:
+            if (o.lsb0, o.bytealigned, o.mxfp_overflow) != opts0 or bool(o.no_color) != nc0:
                 return "err internal", {"offending": desc, "why": "module options changed by the call", "history": log[-6:]}
     return "ok", {"calls": len(log)}
 
